@@ -335,6 +335,30 @@ def datum_analysis(net):
     return d, float(sg[d - 1]), len(S)
 
 
+def datum_defect(net):
+    types = set(o["t"] for cl in net["clusters"] if cl["k"] == "obs" for o in cl["obs"])
+    has_vec = any(cl["k"] == "vectors" for cl in net["clusters"])
+    dd = 0
+    if net["dims"] in ("2d", "3d"):
+        dd += 2
+        if "azimuth" not in types and not has_vec:
+            dd += 1
+        if not ({"distance", "s-distance"} & types) and not has_vec:
+            dd += 1
+    if net["dims"] in ("1d", "3d"):
+        dd += 1
+    return dd
+
+
+def well_posed_free(net):
+    """free network whose defect is the datum defect and whose constrained coordinates fix it"""
+    an = datum_analysis(net)
+    if an is None:
+        return False
+    d, sg, nS = an
+    return d > 0 and d == datum_defect(net) and sg != "none" and sg >= 0.05
+
+
 def oracle_free(c, stats):
     net = reduce_constraints(c)
     an = datum_analysis(net)
@@ -347,17 +371,7 @@ def oracle_free(c, stats):
         return []
     # datum defect of the observation types (as in C08); a larger defect is a configuration defect (e.g. a point
     # with a single determining element), which no choice of constrained coordinates makes determinable
-    types = set(o["t"] for cl in net["clusters"] if cl["k"] == "obs" for o in cl["obs"])
-    has_vec = any(cl["k"] == "vectors" for cl in net["clusters"])
-    dd = 0
-    if net["dims"] in ("2d", "3d"):
-        dd += 2
-        if "azimuth" not in types and not has_vec:
-            dd += 1
-        if not ({"distance", "s-distance"} & types) and not has_vec:
-            dd += 1
-    if net["dims"] in ("1d", "3d"):
-        dd += 1
+    dd = datum_defect(net)
     config = d != dd
     if config:
         stats.label("free.configuration_defect")
